@@ -128,6 +128,20 @@ def touchKids (σ : Store) : List Ast → Store
   | [] => σ
   | k :: rest => touchKids (touchAst σ k.id) rest
 
+/-- `a.f.pfield = astfield(field, i)`: the FST of child `k` records the slot `k` occupies now -/
+def setPfield (σ : Store) (k : Ast) : Store :=
+  match σ.astF k.id with
+  | some f => { σ with fst := upd σ.fst f { σ.fst f with pfield := k.fld } }
+  | none => σ
+
+/-- the renumbering loops that follow the removal / insertion of a span in (parallel) list fields
+(`for i, a in enumerate(getattr(ast, field)): if a: a.f.pfield = astfield(field, i)` in
+fst_get_slice._get_slice_arguments and friends, `_put_slice_asts`): run over the remaining children, each carrying the
+slot it now occupies. -/
+def renumberKids (σ : Store) : List Ast → Store
+  | [] => σ
+  | k :: rest => renumberKids (setPfield σ k) rest
+
 /-- `while parent := parent.parent: parent._cache.clear()`; `fuel` bounds the walk (number of FST objects). -/
 def touchParents (σ : Store) : Nat → Nat → Store
   | 0, _ => σ
